@@ -369,7 +369,7 @@ theorem step_run {P : Progs} {s s' : State} {t : Tid} {th : Thread} {i : Instr} 
       have j := h1.th t _ ht
       refine inv_setThread h1 ht
         (j.next hwf0 (fun x => .inl x) (fun x => .inl x) (fun x => ⟨(j.chk x).1, .inl x⟩) (fun x => .inl x) (fun _ => rfl) j.mid (fun x => .inl x))
-        rfl rfl ?_ ?_ ?_ ?_ ?_
+        rfl rfl ?_ ?_ ?_
       · intro _; right; intro e he hown
         have hf := List.mem_filter.1 he
         have hn := h.ownM e hf.1
@@ -379,11 +379,9 @@ theorem step_run {P : Progs} {s s' : State} {t : Tid} {th : Thread} {i : Instr} 
         simp only [Option.map_some, Option.some.injEq] at hn
         have := hf.2; simp at this; exact this hn.symm
       · intro _; left; exact id
-      · intro _; left; exact id
       · intro hc hcln
         simp only [A.cleaned] at hcln ⊢
         cases hsv : P.svc <;> simp_all
-      · intro k e _ m _ pk; right; exact ⟨m, pk⟩
     · cases hs
   case pStore =>
     simp only at hs
@@ -407,7 +405,7 @@ theorem step_run {P : Progs} {s s' : State} {t : Tid} {th : Thread} {i : Instr} 
     have j := h1.th t _ ht
     refine inv_setThread h1 ht
       (j.next hwf0 (fun x => .inl x) (fun x => .inl x) (fun x => ⟨(j.chk x).1, .inl x⟩) (fun x => .inl x) (fun x => x) j.mid (fun x => .inl x))
-      rfl rfl ?_ ?_ ?_ ?_ ?_
+      rfl rfl ?_ ?_ ?_
     · intro _; left; exact id
     · intro hcl
       cases hrm : a.rm with
@@ -419,155 +417,58 @@ theorem step_run {P : Progs} {s s' : State} {t : Tid} {th : Thread} {i : Instr} 
         · rw [hown, i0.cl hcl] at x; cases x
         · have := h.clU t0 t th0 _ h0 ht hc0 hcl (hw0.trans hown)
           subst this; rw [ht] at h0; cases h0; simp [hrm] at hp0
-    · intro _; left; exact id
     · intro hc hcln
       simp only [A.cleaned] at hcln ⊢
       cases hsv : P.svc <;> simp_all
-    · intro k e _ m _ pk; right; exact ⟨m, pk⟩
   case sAdd =>
     simp only at hs
-    have hm : a.hw = true ∧ a.ht = true ∧ a.chk = true ∧ a.nc = true ∧ P.svc = true ∧ a.mid = false ∧ a' = { a with mid := true } := by
+    have hm : a' = { a with mid := true } ∧ a.ht = true := by
       have hst2 := hst
       simp only [A.step] at hst2; split at hst2
       · rename_i hc; simp only [Bool.and_eq_true, Bool.not_eq_true'] at hc
-        exact ⟨hc.1.1.1.1.1, hc.1.1.1.1.2, hc.1.1.1.2, hc.1.1.2, hc.1.2, hc.2, (Option.some.inj hst2).symm⟩
+        exact ⟨(Option.some.inj hst2).symm, hc.1.1.1.1.2⟩
       · cases hst2
-    obtain ⟨hhw, hht, hchk, hnc, hsvc, hmid, rfl⟩ := hm
+    obtain ⟨rfl, hht⟩ := hm
     cases hs
-    have h1 : ∀ p : List Svc, Inv P (setThread s t ⟨op, rest, false, { a with mid := true }, snap, cr, p, res⟩) := by
-      intro p
-      refine inv_setThread h ht
-        (i0.next hwf0 (fun x => .inl x) (fun x => .inl x) (fun x => ⟨(i0.chk x).1, .inl x⟩) (fun x => .inl x) i0.rsrm (fun _ => hht) (fun x => .inl x))
-        rfl rfl ?_ ?_ ?_ ?_ ?_
-      · intro _; left; exact id
-      · intro _; left; exact id
-      · intro _; left; exact id
-      · intro _ x; exact x
-      · intro k e _ m; simp only at m; rw [hmid] at m; cases m
-    refine inv_routes (h1 _) _ _ ?_ ?_ ?_
-    · intro k e he
-      rcases svcAdd_some he with x | ⟨rfl, _⟩
-      · left; exact x
-      · right; exact ⟨(i0.chk hchk).2, i0.nc hnc⟩
-    · intro k e he
-      rcases svcAdd_some he with x | ⟨rfl, hk⟩
-      · rcases h.cover k e x with y | ⟨t0, th0, h0, m0, d0, p0⟩
-        · left; exact y
-        · have e1 := (h.th t0 th0 h0).ht ((h.th t0 th0 h0).mid m0)
-          have e2 := i0.ht hht
-          rw [e1] at e2; cases e2
-          rw [ht] at h0; cases h0; simp only at m0; rw [hmid] at m0; cases m0
-      · right
-        refine ⟨t, ⟨op, rest, false, { a with mid := true }, snap, cr, _, res⟩, ?_, rfl, rfl, hk⟩
-        simp [setThread]
-    · intro hsv; rw [hsvc] at hsv; cases hsv
-  case sDel =>
-    simp only at hs
-    have hm : a.ht = true ∧ a' = { a with mid := false } := by
-      have hst2 := hst
-      simp only [A.step] at hst2; split at hst2
-      · rename_i hc; simp only [Bool.and_eq_true] at hc; exact ⟨hc.1, (Option.some.inj hst2).symm⟩
-      · cases hst2
-    obtain ⟨hht, rfl⟩ := hm
-    cases hs
-    have uniq : ∀ t0 th0, s.threads t0 = some th0 → th0.a.mid = true →
-        th0 = ⟨op, .sDel :: rest, false, a, snap, cr, pres, res⟩ := by
-      intro t0 th0 h0 m0
-      have e1 := (h.th t0 th0 h0).ht ((h.th t0 th0 h0).mid m0)
-      have e2 := i0.ht hht
-      rw [e1] at e2; cases e2
-      rw [ht] at h0; cases h0; rfl
-    have h1 : Inv P { s with
-        routes := svcDelete ((s.svcRoutes (Thread.desc ⟨op, rest, false, a, snap, cr, pres, res⟩).name).filter (fun k => !pres.contains k)) s.routes,
-        svcRoutes := upd s.svcRoutes (Thread.desc ⟨op, rest, false, a, snap, cr, pres, res⟩).name pres } := by
-      refine inv_routes h _ _ ?_ ?_ ?_
-      · intro k e he; left; exact (svcDelete_some.1 he).1
-      · intro k e he
-        obtain ⟨hr, hnd⟩ := svcDelete_some.1 he
-        left
-        by_cases hn : e.desc.name = (Thread.desc ⟨op, rest, false, a, snap, cr, pres, res⟩).name
-        · rw [hn]; simp only [upd_same]
-          rcases h.cover k e hr with y | ⟨t0, th0, h0, m0, d0, p0⟩
-          · rw [hn] at y
-            by_cases hp : k ∈ pres
-            · exact hp
-            · exfalso; apply hnd
-              simp only [List.mem_filter, List.contains_eq_mem, Bool.not_eq_eq_eq_not, Bool.not_true, decide_eq_false_iff_not]
-              exact ⟨y, hp⟩
-          · have := uniq t0 th0 h0 m0; subst this; exact p0
-        · rw [upd_other _ _ _ _ hn]
-          rcases h.cover k e hr with y | ⟨t0, th0, h0, m0, d0, p0⟩
-          · exact y
-          · have := uniq t0 th0 h0 m0; subst this; exact absurd d0.symm hn
-      · intro hsv k
-        cases hx : svcDelete _ s.routes k with
-        | none => rfl
-        | some e => have := (svcDelete_some.1 hx).1; rw [h.kindS hsv k] at this; cases this
-    have j := h1.th t _ ht
-    refine inv_setThread h1 ht
-      (j.next hwf0 (fun x => .inl x) (fun x => .inl x) (fun x => ⟨(j.chk x).1, .inl x⟩) (fun x => .inl x) j.rsrm (fun x => by simp at x) (fun x => .inl x))
-      rfl rfl ?_ ?_ ?_ ?_ ?_
-    · intro _; left; exact id
+    refine inv_svcTables (inv_setThread h ht
+      (i0.next hwf0 (fun x => .inl x) (fun x => .inl x) (fun x => ⟨(i0.chk x).1, .inl x⟩) (fun x => .inl x) i0.rsrm (fun _ => hht) (fun x => .inl x))
+      rfl rfl ?_ ?_ ?_) _ _ _
     · intro _; left; exact id
     · intro _; left; exact id
     · intro _ x; exact x
-    · intro k e he m d pk
-      left
-      show k ∈ upd s.svcRoutes _ pres e.desc.name
-      rw [← d]; unfold upd; simp only [Thread.desc, if_true]; exact pk
-  case sRemove =>
+  case sDel =>
     simp only at hs
-    have hm : a.ht = true ∧ a.mid = false ∧ a' = { a with rr := true } := by
+    have hm : a' = { a with mid := false } := by
       have hst2 := hst
       simp only [A.step] at hst2; split at hst2
-      · rename_i hc; simp only [Bool.and_eq_true, Bool.not_eq_true'] at hc
-        exact ⟨hc.1, hc.2, (Option.some.inj hst2).symm⟩
+      · exact (Option.some.inj hst2).symm
       · cases hst2
-    obtain ⟨hht, hmid, rfl⟩ := hm
-    have nomid : ∀ t0 th0, s.threads t0 = some th0 → th0.a.mid = true → False := by
-      intro t0 th0 h0 m0
-      have e1 := (h.th t0 th0 h0).ht ((h.th t0 th0 h0).mid m0)
-      have e2 := i0.ht hht
-      rw [e1] at e2; cases e2
-      rw [ht] at h0; cases h0; simp only at m0; rw [hmid] at m0; cases m0
+    subst hm
+    cases hs
+    refine inv_svcTables (inv_setThread h ht
+      (i0.next hwf0 (fun x => .inl x) (fun x => .inl x) (fun x => ⟨(i0.chk x).1, .inl x⟩) (fun x => .inl x) i0.rsrm (fun x => by simp at x) (fun x => .inl x))
+      rfl rfl ?_ ?_ ?_) _ _ _
+    · intro _; left; exact id
+    · intro _; left; exact id
+    · intro _ x; exact x
+  case sRemove =>
+    simp only at hs
+    have hm : a' = { a with rr := true } := by
+      have hst2 := hst
+      simp only [A.step] at hst2; split at hst2
+      · exact (Option.some.inj hst2).symm
+      · cases hst2
+    subst hm
     split at hs
-    · rename_i wt hwt
-      cases hs
-      have h1 : Inv P { s with routes := svcDelete (s.svcRoutes wt.name) s.routes, svcRoutes := upd s.svcRoutes wt.name [] } := by
-        refine inv_routes h _ _ ?_ ?_ ?_
-        · intro k e he; left; exact (svcDelete_some.1 he).1
-        · intro k e he
-          obtain ⟨hr, hnd⟩ := svcDelete_some.1 he
-          left
-          rcases h.cover k e hr with y | ⟨t0, th0, h0, m0, d0, p0⟩
-          · by_cases hn : e.desc.name = wt.name
-            · exfalso; rw [hn] at y; exact hnd y
-            · rw [upd_other _ _ _ _ hn]; exact y
-          · exact (nomid t0 th0 h0 m0).elim
-        · intro hsv k
-          cases hx : svcDelete _ s.routes k with
-          | none => rfl
-          | some e => have := (svcDelete_some.1 hx).1; rw [h.kindS hsv k] at this; cases this
-      have j := h1.th t _ ht
-      refine inv_setThread h1 ht
-        (j.next hwf0 (fun x => .inl x) (fun x => .inl x) (fun x => ⟨(j.chk x).1, .inl x⟩) (fun x => .inl x) j.rsrm j.mid (fun x => .inl x))
-        rfl rfl ?_ ?_ ?_ ?_ ?_
+    · cases hs
+      refine inv_svcTables (inv_setThread h ht
+        (i0.next hwf0 (fun x => .inl x) (fun x => .inl x) (fun x => ⟨(i0.chk x).1, .inl x⟩) (fun x => .inl x) i0.rsrm i0.mid (fun x => .inl x))
+        rfl rfl ?_ ?_ ?_) _ _ _
       · intro _; left; exact id
       · intro _; left; exact id
-      · intro _; right; intro k e he hown
-        obtain ⟨hr, hnd⟩ := svcDelete_some.1 he
-        have hn := h.ownR k e hr
-        rw [hown] at hn
-        simp only [nameOf, Thread.w] at hn hwt
-        rw [hwt] at hn
-        simp only [Option.map_some, Option.some.injEq] at hn
-        rcases h.cover k e hr with y | ⟨t0, th0, h0, m0, d0, p0⟩
-        · rw [← hn] at y; exact hnd y
-        · exact nomid t0 th0 h0 m0
       · intro hc hcln
         simp only [A.cleaned] at hcln ⊢
         cases hsv : P.svc <;> simp_all
-      · intro k e _ m _ pk; right; exact ⟨m, pk⟩
     · cases hs
 
 /-- every step preserves the invariant -/
@@ -594,15 +495,15 @@ theorem inv_reachable {P : Progs} (hP : P.wf = true) (s : State)
 
 /-! ### consequences -/
 
-/-- once Close has returned, nothing of that watcher is left and nothing can come back -/
+/-- once Close has returned, nothing of that watcher is left in the pattern tables and no UpdateDesc of it
+    is past its closed check (the service tables are covered by the second invariant layer) -/
 theorem Inv.noRes {P : Progs} {s : State} (h : Inv P s) {w : Wid} (hw : w ∈ s.closeRet) :
     closedOf s w = true ∧ (∀ e ∈ s.mtab, e.owner ≠ w) ∧ (∀ e ∈ s.static, e.owner ≠ w) ∧
-    (∀ k e, s.routes k = some e → e.owner ≠ w) ∧
     (∀ t th, s.threads t = some th → th.w = w → th.a.chk = false) := by
   obtain ⟨t0, th0, h0, hw0, hc0, hcl0⟩ := h.cr w hw
   have hclosed : closedOf s w = true := hw0 ▸ (h.th t0 th0 h0).cl hc0
   simp only [A.cleaned, hc0, Bool.not_true, Bool.false_or] at hcl0
-  refine ⟨hclosed, ?_, ?_, ?_, ?_⟩
+  refine ⟨hclosed, ?_, ?_, ?_⟩
   · intro e he hown
     cases hsv : P.svc with
     | true => rw [(h.kindP hsv).1] at he; cases he
@@ -621,15 +522,6 @@ theorem Inv.noRes {P : Progs} {s : State} (h : Inv P s) {w : Wid} (hw : w ∈ s.
       · rw [hown, hclosed] at x; cases x
       · have := h.clU t1 t0 th1 th0 h1 h0 hc1 hc0 (by rw [hw1, hown, hw0])
         subst this; rw [h0] at h1; cases h1; simp [hcl0.1.2] at hp1
-  · intro k e he hown
-    cases hsv : P.svc with
-    | false => rw [h.kindS hsv k] at he; cases he
-    | true =>
-      simp only [hsv, if_true, Bool.and_eq_true] at hcl0
-      rcases h.routes k e he with x | ⟨t1, th1, h1, hw1, hc1, hp1⟩
-      · rw [hown, hclosed] at x; cases x
-      · have := h.clU t1 t0 th1 th0 h1 h0 hc1 hc0 (by rw [hw1, hown, hw0])
-        subst this; rw [h0] at h1; cases h1; simp [hcl0.1] at hp1
   · intro t th ht hwt
     cases hx : th.a.chk with
     | false => rfl
